@@ -96,7 +96,11 @@ def run(repo: Repo, chk: Check):
     chk.saw("types", "IC10Register.lifetime")
     lcfg, lrd = fn_ctx(lf)
     wl = f"{t.path}:{lf.lineno} in IC10Register.lifetime"
+    from .shared import lifetime_leaves
     ranges = [c for c in ast.walk(lf) if isinstance(c, ast.Call) and norm(c.func) == "range" and len(c.args) == 2]
+    for v, _st in lifetime_leaves(t, lf, lcfg, lrd):
+        if isinstance(v, ast.Call) and norm(v.func) == "range" and len(v.args) == 2 and not any(v is r for r in ranges):
+            ranges.append(v)   # a class-level constant interval
     if len(ranges) < 3:
         raise AnalysisError(f"IC10Register.lifetime: expected three interval constructions, found {len(ranges)}")
     for c in ranges:
@@ -104,6 +108,9 @@ def run(repo: Repo, chk: Check):
         key = f"types:IC10Register.lifetime:{norm(c)[:60]}"
         if "maxsize" in norm(hi):
             chk.ok("R04.c", key, {"kind": "unbounded"})
+            continue
+        if "maxsize" in norm(c.args[0]) and isinstance(hi, ast.Constant):
+            chk.ok("R04.c", key, {"kind": "empty interval (no accesses)"})
             continue
         ids = live_ids(lcfg, c)
 
